@@ -233,7 +233,7 @@ the bus listener of the inner Pull is cancelled in the same step. -/
 theorem C10_e2e_pullid_ends_any_spelling (pl : Ev → Msg) (s s' : Sys) (h : SReachable pl s) (l : Nat)
     (icpt : Nat → Nat) (rawSub rawDel tag : Nat) (r : List Msg) (hsame : icpt rawSub = icpt rawDel)
     (hp : (s.pipe l).hasPid = true) (hf : (s.pipe l).fixed = true)
-    (ht : (s.pipe l).target = pullIDTarget icpt rawSub) (hq : (s.pipe l).fwQ = changeOf icpt rawDel true tag :: r)
+    (ht : (s.pipe l).target = pullIDTarget icpt rawSub) (hq : (s.pipe l).fwQ = changeOf icpt rawDel .remove tag :: r)
     (hs : sstep pl s (.pipe l .xferFP) = some s') :
     (s'.pipe l).outClosed = true ∧ (s'.bus.ls l).cancelled = true :=
   C10_e2e_pullid_ends_on_remove pl s s' h l _ r hp hf hq (by simp [changeOf, ht, pullIDTarget, hsame]) rfl hs
@@ -244,19 +244,19 @@ forwarder exits: everything done, user channel closed. -/
 example :
     let pipes : Nat → PConfig := fun _ =>
       { hasEx := false, exMerge := false, hasPid := false, target := 0, fixed := true, keep := fun _ => true }
-    let s := srun (fun e => ⟨0, false, e.seq⟩) ⟨init fun _ => 1, pipes⟩
+    let s := srun (fun e => ⟨0, .update, e.seq⟩) ⟨init fun _ => 1, pipes⟩
       [.bus (.lSpawn 0), .bus (.lRegister 0), .bus (.sSnapshot 0), .bus (.sAcquire 0), .deliver 0,
        .bus (.sRelease 0), .pipe 0 .consume, .cancel 0, .bus (.wAwake 0), .bus (.wLockReq 0),
        .bus (.wLockAcq 0), .close 0, .bus (.wNil 0), .bus (.wUnlock 0), .pipe 0 .fwExitIn]
     (s.bus.ls 0).wpc = .done ∧ (s.pipe 0).allDone = true ∧ (s.pipe 0).outClosed = true ∧
-      (s.pipe 0).out = [⟨0, false, 1⟩] ∧ (s.bus.ls 0).recvd = [⟨0, 1⟩] := by decide
+      (s.pipe 0).out = [⟨0, .update, 1⟩] ∧ (s.bus.ls 0).recvd = [⟨0, 1⟩] := by decide
 
 /-- non-vacuity: subscribe with a cancelled context (updates-only backpressure Pull: no seed), a writer sends
 meanwhile and meets the dead listener; everything of the subscription terminates without any consumer. -/
 example :
     let pipes : Nat → PConfig := fun _ =>
       { hasEx := false, exMerge := false, hasPid := false, target := 0, fixed := true, keep := fun _ => true }
-    let s := srun (fun e => ⟨0, false, e.seq⟩) ⟨init fun _ => 1, pipes⟩
+    let s := srun (fun e => ⟨0, .update, e.seq⟩) ⟨init fun _ => 1, pipes⟩
       [.cancel 0, .bus (.lSpawn 0), .bus (.lRegister 0), .bus (.sSnapshot 0), .bus (.sAcquire 0),
        .bus (.sListenCancelled 0), .bus (.sRelease 0), .bus (.wAwake 0), .bus (.wLockReq 0), .bus (.wLockAcq 0),
        .close 0, .bus (.wNil 0), .bus (.wUnlock 0), .pipe 0 .fwExitIn, .bus (.sFinish 0), .bus (.sCollect 0)]
